@@ -69,6 +69,12 @@ func ruleHostile(c *core.Ctx) {
 		}
 	}
 	c.Floor("hostile", c.Counts["hostile_members"], 40, "hostile family members")
+	// ... and never panics on VALID input either: every member of the broad union of families (all keyword families, defaults of every
+	// kind, enums, compositions) is generated; a panic of the interpreted generator or an error on a valid schema is reported
+	for _, mb := range broadMembers(c.Tier, gen.DefaultConfig()) {
+		runMember(c, mb, ruleSet("A-PANIC", "A-GENERR"), 64, func(w *fam.World, fm *fam.FileModel) []fam.Issue { return nil })
+	}
+	c.Floor("families", c.Counts["members"], 300, "valid family members generated without panic")
 }
 
 func hostileKind(name string) string {
